@@ -111,7 +111,15 @@ def srvObs (ws : List String) : String :=
         t.toNat?.bind fun n => if n ≤ 18446744073709551615 then some n else none else none
   let lstOk := (match kv ws "lst" with | none => true | some l => l == "tcp" || l == "uds" || l == "udsl" || l == "udsa") &&
     (match kv ws "sysexit" with | none => true | some v => v == "1")
-  match tmo, lstOk with
+  -- `calls=<setter>,…`: the builder's setters in the order they are called; each changes its own setting only, so the order and
+  -- the other setters do not matter to the prediction (`timeout` occurs iff a time-out is configured)
+  let callsOk := match kv ws "calls" with
+    | none => true
+    | some t =>
+      let cs := t.splitOn ","
+      cs.all (fun c => c == "timeout" || c == "blocking" || c == "limit" || c == "backlog") && cs.length ≤ 6 &&
+        (cs.filter (· == "timeout")).length == (if isDefault then 0 else 1)
+  match tmo, lstOk && callsOk with
   | none, _ | _, false => "bad-op"
   | some timeout, true =>
   let mode : Option Bool := match kv ws "mode" with | some "g" => some true | some "f" => some false | _ => none
